@@ -299,6 +299,7 @@ def run_scenario(scen, chooser_factory, max_steps=4000, observe=True):
     simtasks.LOG.clear()
     simtasks.INIT_LOG.clear()
     simtasks.PICKLER_LOG.clear()
+    simtasks.PICKLER_RES_LOG.clear()
     H = Holder()
     H.ex = None
     H.futs = {}
@@ -502,6 +503,7 @@ def run_scenario(scen, chooser_factory, max_steps=4000, observe=True):
         "reuse_calls": H.reuse_calls,
         "pickler_at_submit": {str(k): v for k, v in H.pickler_at_submit.items()},
         "pickler_in_worker": [list(x) for x in simtasks.PICKLER_LOG],
+        "pickler_at_result": [list(x) for x in simtasks.PICKLER_RES_LOG],
     }
     for k, f in H.futs.items():
         r = {"state": fut_obs(f)}
